@@ -371,7 +371,7 @@ func scenDeposed(x *Ctx) {
 	x.Step("isolate leader %s", l)
 	x.C.Net.Partition([]string{l}, x.others(l))
 	short := x.WritesAsync(2, l, 1+r.Intn(2), 40*time.Millisecond) // time out at the client, may commit later
-	long := x.WritesAsync(5, l, 1+r.Intn(3), 3*time.Second)         // pending when deposed
+	long := x.WritesAsync(5, l, 1+r.Intn(3), 3*time.Second)        // pending when deposed
 	l2 := x.C.WaitLeaderAmong(x.others(l), 5*time.Second)
 	if l2 != "" {
 		x.Writes(3, l2, 2+r.Intn(3), time.Second)
@@ -513,6 +513,10 @@ func scenDeposedRead(x *Ctx) {
 	x.finishDirected()
 }
 
+var heldTerm atomic.Uint64
+
+func term0(x *Ctx, l string) uint64 { return heldTerm.Load() }
+
 // scenStaleRound: replies of a heartbeat round sent BEFORE the read are held and released after a newer
 // leader has acknowledged writes and the read has been invoked at the old leader.
 func scenStaleRound(x *Ctx) {
@@ -531,6 +535,56 @@ func scenStaleRound(x *Ctx) {
 		x.Inconclusive("no heartbeat replies were held")
 		x.C.Net.RemoveRule(rule)
 		return
+	}
+	if r.Intn(2) == 0 && len(all) == 3 {
+		// the held replies outlive a whole leadership: l is deposed and re-elected before the final partition
+		v := ""
+		x.C.Net.RemoveRule(rule) // releases the gate: keep only ONE voter's replies from now on
+		others0 := x.others(l)
+		v = others0[r.Intn(2)]
+		w := minus(others0, []string{v})[0]
+		gate = simnet.NewGate()
+		x.C.Net.AddRule(&simnet.Rule{Name: "hold-replies-of-one-voter", Gate: gate, Match: func(m *mon.Msg, reply bool) bool {
+			return reply && m.Kind == "AE" && m.From == l && m.To == v && m.Term == term0(x, l)
+		}})
+		t1 := x.C.Node(l).R().Status().Term
+		heldTerm.Store(t1)
+		time.Sleep(time.Duration(60+r.Intn(60)) * x.C.Opts.HB) // many rounds: the held replies carry large round numbers
+		if gate.HeldCount() == 0 {
+			x.Inconclusive("no replies of the first leadership were held")
+			return
+		}
+		x.Step("leadership 1 of %s (term %d): %d replies of %s held; depose it", l, t1, gate.HeldCount(), v)
+		x.C.Net.Partition([]string{l}, others0)
+		l2 := x.C.WaitLeaderAmong(others0, 6*time.Second)
+		if l2 == "" {
+			x.Inconclusive("no second leader")
+			return
+		}
+		x.Writes(5, l2, 1, time.Second)
+		// bring l back and let it catch up, then isolate l2 so that l wins again with the third node's vote
+		x.C.Net.ClearLinks()
+		if !x.WaitFor(3*time.Second, func() bool {
+			a, b := x.C.Node(l).Sample(), x.C.Node(l2).Sample()
+			return a != nil && b != nil && a.Term == b.Term && a.Commit >= b.Commit && b.State == "leader"
+		}) {
+			x.Inconclusive("%s did not catch up", l)
+			return
+		}
+		third := minus(others0, []string{l2})[0]
+		quiet := x.C.Net.AddRule(&simnet.Rule{Name: "third-does-not-campaign", Drop: true, Match: func(m *mon.Msg, reply bool) bool {
+			return !reply && m.Kind == "RV" && m.From == third
+		}})
+		x.Step("isolate %s; %s is re-elected", l2, l)
+		x.C.Net.Partition([]string{l2}, []string{l, third})
+		if !x.WaitFor(10*time.Second, func() bool { s := x.C.Node(l).Sample(); return s != nil && s.State == "leader" && s.Term > t1 }) {
+			x.Inconclusive("%s was not re-elected", l)
+			return
+		}
+		x.C.Net.ClearLinks()
+		x.C.Net.RemoveRule(quiet)
+		_ = w
+		x.NT("two-leaderships")
 	}
 	x.Step("held %d heartbeat replies to %s; partition it away", gate.HeldCount(), l)
 	// from now on nothing passes between the old leader and the others (the held replies are already "in flight")
@@ -993,12 +1047,46 @@ func scenInstallCrash(x *Ctx) {
 	}
 	f := x.others(l)[r.Intn(2)]
 	x.Writes(1, l, 3, time.Second)
-	variant := r.Intn(3)
-	if variant == 0 {
+	thr0 := x.C.Opts.FSM.SnapThreshold
+	if thr0 <= 0 {
+		thr0 = 10
+	}
+	variant := r.Intn(5)
+	longTail := variant == 4
+	if variant == 3 {
+		// a freshly added, empty member receives the snapshot
+		x.Writes(3, l, 2*thr0+5, time.Second)
+		if !x.ensureNode("m1") {
+			return
+		}
+		ops := []string{"log.discard", "log.discard", "snap.close"}
+		plan := &shim.CrashPlan{Op: ops[r.Intn(len(ops))], Nth: 1, After: false}
+		if plan.Op == "snap.close" {
+			plan.After = true
+		}
+		x.Step("add the empty node m1; plan its crash around %s of the installation", plan.Op)
+		x.C.Node("m1").PlanCrash(plan)
+		go x.memberOp(l, true, "m1", false, 500*time.Millisecond)
+		if x.C.Node("m1").WaitDown(4 * time.Second) {
+			x.Cover("install-crash-fired:empty-member " + plan.Op)
+			x.Step("restart m1")
+			if err := x.C.Node("m1").Restart(); err != nil {
+				x.M.AddViolation(mon.Violation{Props: restartProps(err), Sig: "restart-failed", Node: "m1", Msg: fmt.Sprintf("node m1 could not be created/started over its directory after %q: %v", x.C.Node("m1").LastCrash, err)})
+			}
+		}
+		x.NT("install-crash")
+		x.finishDirected()
+		return
+	}
+	if variant == 0 || longTail {
 		// give the follower a stale uncommitted tail first: make it the old leader
 		x.Step("isolate leader %s with an uncommitted tail", l)
 		x.C.Net.Partition([]string{l}, x.others(l))
-		w := x.WritesAsync(2, l, 4+r.Intn(6), 60*time.Millisecond)
+		tail := 4 + r.Intn(6)
+		if longTail {
+			tail = 3*thr0 + 4 // longer than the snapshot label the others will reach
+		}
+		w := x.WritesAsync(2, l, tail, 80*time.Millisecond)
 		f = l
 		l = x.C.WaitLeaderAmong(minus(all, []string{f}), 5*time.Second)
 		w()
@@ -1015,9 +1103,19 @@ func scenInstallCrash(x *Ctx) {
 	if thr <= 0 {
 		thr = 10
 	}
-	x.Writes(3, l, 2*thr+5, time.Second)
+	if longTail {
+		x.Writes(3, l, thr+2, time.Second) // just enough to snapshot: the label stays below the stale tail's end
+	} else {
+		x.Writes(3, l, 2*thr+5, time.Second)
+	}
 	ops := []string{"log.discard", "log.discard", "log.compact", "snap.close", "snap.write", "snap.new"}
+	if longTail {
+		ops = []string{"log.discard", "snap.close"}
+	}
 	plan := &shim.CrashPlan{Op: ops[r.Intn(len(ops))], Nth: 1, After: r.Intn(2) == 0}
+	if longTail {
+		plan.After = plan.Op == "snap.close"
+	}
 	pos := "before"
 	if plan.After {
 		pos = "after"
@@ -1156,3 +1254,149 @@ func scenBoundaryLag(x *Ctx) {
 }
 
 func init() { Registry["w2.boundarylag"] = scenBoundaryLag }
+
+// ---------------------------------------------------------------- stale replication reply across two leaderships (C04 C01)
+
+func (x *Ctx) split(groups ...[]string) {
+	x.C.Net.ClearLinks()
+	for i := range groups {
+		for j := i + 1; j < len(groups); j++ {
+			x.C.Net.Partition(groups[i], groups[j])
+		}
+	}
+}
+
+// scenStaleReply: a follower's successful reply to entries of leadership 1 is delayed until the same node
+// leads again (two terms later) with different entries at those indices. If the reply is still accepted, the
+// leader counts a replica that does not hold its entries and commits (and acknowledges) without a majority;
+// the entries are then lost to the next leader.
+func scenStaleReply(x *Ctx) {
+	r := x.R
+	all, l, ok := x.startStatic(5)
+	if !ok {
+		return
+	}
+	x.Writes(1, l, 2, time.Second)
+	t1 := x.C.Node(l).R().Status().Term
+	rest := x.others(l)
+	v := pick(r, rest)
+	abc := minus(rest, []string{v})
+	gate := simnet.NewGate()
+	x.C.Net.AddRule(&simnet.Rule{Name: "hold-acks-of-v", Gate: gate, Match: func(m *mon.Msg, reply bool) bool {
+		return reply && m.Kind == "AE" && m.From == l && m.To == v && m.Term == t1 && len(m.Ents) > 0
+	}})
+	x.Step("leadership 1 (%s, term %d): entries reach only %s, whose acknowledgements are delayed", l, t1, v)
+	x.split([]string{l, v}, abc)
+	n1 := 5 + r.Intn(4)
+	w1 := x.WritesAsync(2, l, n1, 150*time.Millisecond)
+	if !x.WaitFor(2*time.Second, func() bool { return gate.HeldCount() > 0 }) {
+		w1()
+		x.Inconclusive("no acknowledgement was held")
+		return
+	}
+	time.Sleep(20 * time.Millisecond)
+	x.Step("isolate %s and %s; the other three elect a leader and commit different entries", l, v)
+	x.split([]string{l}, []string{v}, abc)
+	w1()
+	l2 := x.C.WaitLeaderAmong(abc, 6*time.Second)
+	if l2 == "" {
+		x.Inconclusive("no second leader")
+		return
+	}
+	x.Writes(3, l2, 1+r.Intn(2), time.Second)
+	x.Step("%s rejoins (not %s), catches up and is re-elected", l, v)
+	x.split([]string{v}, minus(all, []string{v}))
+	if !x.WaitFor(3*time.Second, func() bool {
+		a, b := x.C.Node(l).Sample(), x.C.Node(l2).Sample()
+		return a != nil && b != nil && b.State == "leader" && a.Term == b.Term && a.Commit >= b.Commit
+	}) {
+		x.Inconclusive("%s did not catch up", l)
+		return
+	}
+	quiet := x.C.Net.AddRule(&simnet.Rule{Name: "only-l-campaigns", Drop: true, Match: func(m *mon.Msg, reply bool) bool {
+		return !reply && m.Kind == "RV" && m.From != l
+	}})
+	t2 := x.C.Node(l2).R().Status().Term
+	x.split([]string{v}, []string{l2}, minus(all, []string{v, l2}))
+	if !x.WaitFor(10*time.Second, func() bool { s := x.C.Node(l).Sample(); return s != nil && s.State == "leader" && s.Term > t2 }) {
+		x.Inconclusive("%s was not re-elected", l)
+		return
+	}
+	x.C.Net.RemoveRule(quiet)
+	b := pick(r, minus(abc, []string{l2}))
+	x.Step("leadership 2 of %s: it reaches only %s; writes, then the delayed acknowledgements of %s arrive", l, b, v)
+	var groups [][]string
+	groups = append(groups, []string{l, b})
+	for _, id := range minus(all, []string{l, b}) {
+		groups = append(groups, []string{id})
+	}
+	x.split(groups...)
+	w2 := x.WritesAsync(4, l, n1, 400*time.Millisecond)
+	time.Sleep(time.Duration(20+r.Intn(30)) * time.Millisecond)
+	gate.Release()
+	w2()
+	x.NT("released-in-second-leadership")
+	x.Step("isolate %s and %s; the other three elect a leader and write", l, b)
+	x.split([]string{l, b}, minus(all, []string{l, b}))
+	if l3 := x.C.WaitLeaderAmong(minus(all, []string{l, b}), 6*time.Second); l3 != "" {
+		x.Writes(5, l3, 2, time.Second)
+	}
+	x.Step("heal")
+	x.C.Net.Heal()
+	x.finishDirected()
+}
+
+func init() { Registry["w2.stalereply"] = scenStaleReply }
+
+// ---------------------------------------------------------------- Stop() during a snapshot installation, Start() on the same object (C15 C18)
+
+// scenBounceRestore: a lagging follower is stopped while it installs (restores) the leader's snapshot and is
+// started again on the same object. It must take part again and catch up.
+func scenBounceRestore(x *Ctx) {
+	r := x.R
+	_, l, ok := x.startStatic(3)
+	if !ok {
+		return
+	}
+	thr := x.C.Opts.FSM.SnapThreshold
+	if thr <= 0 {
+		x.Inconclusive("needs snapshots")
+		return
+	}
+	f := pick(r, x.others(l))
+	x.Writes(1, l, 2, time.Second)
+	x.Step("isolate follower %s; the others move past a snapshot", f)
+	x.C.Net.Partition([]string{f}, x.others(f))
+	x.Writes(2, l, 2*thr+3, time.Second)
+	if !x.WaitFor(3*time.Second, func() bool { s := x.C.Node(l).Sample(); return s != nil && s.LII > 2 }) {
+		x.Inconclusive("leader took no snapshot")
+		return
+	}
+	var sawIS atomic.Int32
+	x.C.Net.AddRule(&simnet.Rule{Name: "watch-install", Match: func(m *mon.Msg, reply bool) bool {
+		if !reply && m.Kind == "IS" && m.To == f && m.Done && m.NBytes > 0 {
+			sawIS.Add(1) // the final chunk is on its way: the follower is about to restore
+		}
+		return false
+	}})
+	x.Step("heal; bounce %s while it installs the snapshot", f)
+	x.C.Net.ClearLinks()
+	if !x.WaitFor(1500*time.Millisecond, func() bool { return sawIS.Load() > 0 }) {
+		x.Inconclusive("no snapshot was sent")
+		return
+	}
+	time.Sleep(time.Duration(r.Intn(x.C.Opts.FSM.RestoreUs+2000)) * time.Microsecond)
+	pause := time.Duration(0)
+	if r.Intn(3) > 0 {
+		pause = time.Duration(x.C.Opts.FSM.RestoreUs+3000) * time.Microsecond // the interrupted handler finishes while the node is stopped
+	}
+	if err := x.C.Node(f).BounceAfter(pause); err != nil {
+		x.M.AddViolation(mon.Violation{Props: []string{"C18"}, Sig: "restart-error", Node: f, Msg: fmt.Sprintf("Restart() after Stop() returned %v", err)})
+	}
+	x.NT("bounced-during-install")
+	x.Writes(3, x.C.WaitLeader(3*time.Second), 3, time.Second)
+	x.C.Net.Heal()
+	x.finishDirected()
+}
+
+func init() { Registry["w2.bouncerestore"] = scenBounceRestore }
